@@ -71,7 +71,7 @@ def run(ctx):
     rnd = random.Random(ctx.seed * 41 + 18)
     ctx.mc("MC_CompressingReader", timeout=900)
     vecs = []
-    for i in range(6 if q else 40):
+    for i in range(6 if q else 160):
         o = {"code": 4 + (i % 2), "bcs": i % 2 == 0, "ccs": i % 3 != 1, "level": [0, 1, 3, 9][i % 4], "conc": 1, "legacy": False}
         if i % 3 == 0:
             o["size"] = -1
